@@ -1,0 +1,8 @@
+//go:build !verif
+
+// Package verifhook provides scheduling points for the verification harness.
+// Without the "verif" build tag they are empty and inlined away.
+package verifhook
+
+// At marks a scheduling point (no-op in normal builds).
+func At(point string) {}
